@@ -14,6 +14,7 @@ LEMMAS = {
     "L9": lambda prog, res: (lemmas.lemma_L9(prog, res, "ELF64"), lemmas.lemma_L9(prog, res, "ELF32")),
     "L6b": lambda prog, res: lemmas.lemma_L6b(prog, res),
     "Lbyname": lambda prog, res: lemmas.lemma_byname(prog, res),
+    "L7strtab": lambda prog, res: lemmas.lemma_L7strtab(prog, res),
     "L7": lambda prog, res: lemmas.lemma_L7(prog, res),
     "L7both": lambda prog, res: lemmas.lemma_L7(prog, res, classes=("ELF32", "ELF64")),
 }
